@@ -99,8 +99,9 @@ func checkC02(c *h.Check) {
 	specs = append(specs, manyTwinsSpecs()...)
 	specs = append(specs, spellingSpecs()...)
 	specs = append(specs, taggedStarSpecs()...)
+	specs = append(specs, bothFormsSpecs("C02")...)
 	cases, results := runSpecs(c, specs, map[string]bool{"wiring": true})
-	stdCoverage(c, cases, results, "all DAGs on N labelled types (node i depends on a subset of lower-numbered nodes, last node is the result), function providers by default; deviations (bounded per N, see explorer): node source kind (struct pointer/value, field, pointer-to-field, binding, value, injector parameter), type shape (leaf, pointer, named int, interface, slice), lib-package placement, nested lib set, variadic parameter, error/cleanup mix, nesting depth of the set (0-2 extra levels), one named set per node (also declared pairwise in one var spec), a second injector over the same set objects declared before or after the first. Oracle: every provider argument / struct field / selected field / result carries the identity minted by the model's designated source in the same call; exactly the needed providers run, once. Distinct = distinct rendered source.")
+	stdCoverage(c, cases, results, "all DAGs on N labelled types (node i depends on a subset of lower-numbered nodes, last node is the result), function providers by default; deviations (bounded per N, see explorer): node source kind (struct pointer/value, field, pointer-to-field, binding, value, injector parameter), type shape (leaf, pointer, named int, interface, slice), lib-package placement, nested lib set, variadic parameter, error/cleanup mix, nesting depth of the set (0-2 extra levels), one named set per node (also declared pairwise in one var spec), a second injector over the same set objects declared before or after the first; the value and the pointer form of one struct provider needed together, directly and through an interface bound to either form, in every visiting order. Oracle: every provider argument / struct field / selected field / result carries the identity minted by the model's designated source in the same call; exactly the needed providers run, once. Distinct = distinct rendered source.")
 	c.Coverage["explorer"] = exp
 	sampleCase(c, cases, results)
 	c.Assumptions = append(c.Assumptions, "data independence: identities stand for all injector argument values")
